@@ -132,7 +132,18 @@ def sq(x: str) -> str:
     return _HTML_WS_RUN.sub("", x)
 
 
-def oracle(tree: Any, html_text: str) -> Optional[str]:
+def _drop_tail(text: str, lenient_tail: bool) -> str:
+    """Used ONLY to recognise one recorded finding (see known_match): html.t() ends a multi-line body with
+    str.rstrip(), which removes a trailing run of Python white space - including separators that are not HTML white
+    space. With lenient_tail the expected text loses such a trailing run, if it holds a non-HTML-white-space char."""
+    if not lenient_tail:
+        return text
+    stripped = text.rstrip()
+    tail = text[len(stripped):]
+    return stripped if any(ch not in HTML_WS for ch in tail) else text
+
+
+def oracle(tree: Any, html_text: str, lenient_tail: bool = False) -> Optional[str]:
     from recipe_grid.renderer.recipe_to_table import recipe_tree_to_table
     from recipe_grid.renderer.table import Cell
     table = recipe_tree_to_table(tree)
@@ -144,7 +155,11 @@ def oracle(tree: Any, html_text: str) -> Optional[str]:
     for cell, td in zip(cells, p.tds):
         text, items = expected_text(cell.value)
         if items is not None:
-            if any(_EXOTIC.search(x) for x in items):
+            exotic_items = any(_EXOTIC.search(x) for x in items)
+            if lenient_tail and any("\n" in x for x in td["lis"]):
+                items = [_drop_tail(x, "\n" in y) for x, y in zip(items, td["lis"])] if len(items) == len(td["lis"]) \
+                    else items
+            if exotic_items:
                 same = [sq(x) for x in td["lis"]] == [sq(x) for x in items]
             else:
                 same = [ws(x) for x in td["lis"]] == [ws(x) for x in items]
@@ -152,7 +167,10 @@ def oracle(tree: Any, html_text: str) -> Optional[str]:
                 return f"output list cell shows {td['lis']!r}, the outputs are {items!r}"
             continue
         got = td["text"]
-        if _EXOTIC.search(text or ""):
+        exotic = _EXOTIC.search(text or "") is not None      # decided on the text as written
+        if lenient_tail and "\n" in got:
+            text = _drop_tail(text or "", True)
+        if exotic:
             # textwrap.indent puts the indentation of the enclosing <tr>/<table> after such a character too, i.e.
             # HTML white space where the text had none: equality after DELETING HTML white space (and only that)
             ok = sq(got) == sq(text)
@@ -191,4 +209,24 @@ def replay(inp: Any) -> Case:
 
 
 def known_match(finding: Any, case: Case) -> bool:
-    return False
+    """matches = "multiline_body_trailing_separator_stripped": the ONLY thing wrong with the cell texts of this case
+    is that a cell (or output list item) whose body t() laid out on several lines lost a trailing run of Python
+    white space containing a separator that is not HTML white space (U+001C-1F, U+0085, U+2028, U+2029, VT, ...)."""
+    if finding.get("matches") != "multiline_body_trailing_separator_stripped":
+        return False
+    v = case.violation or ""
+    if not (v.startswith("cell of ") or v.startswith("output list cell shows ")):
+        return False
+    inp = case.input
+    if not isinstance(inp, dict):
+        return False
+    tj = inp.get("tree", inp.get("ftree"))
+    if tj is None:
+        return False
+    try:
+        from recipe_grid.renderer.html import render_recipe_tree
+        tree = ser.node_unjson(tj)
+        out = render_recipe_tree(tree, inp.get("prefix", "recipe-"))
+        return oracle(tree, out) is not None and oracle(tree, out, lenient_tail=True) is None
+    except Exception:  # noqa
+        return False
